@@ -9,17 +9,17 @@ E1_NOTE = ("Trusted base: Go 1.26.8 runtime and testing/synctest fake clock; the
 
 checks = {
  "C01": dict(engine="E1", cat="exploration", ref="§3 C01", technique="deterministic simulation: seeded history search over failing Checks under a fake clock (cuts at arbitrary invocations) with save-time faults; oracle on the recorded history",
-             text="Seeded search over generated failing property programs x flags x clock policies: the deadline/shrink time limit strikes at arbitrary invocations of a real, unmodified rapid.Check running in a synctest bubble; every finished history is judged (final case fails with the named failure, logged draws = received draws, never flaky, no falsification without a signal, fail file replays the presented words). Exploration is the right level: the quantifier (programs x seeds x instants of the clock) is unbounded."),
+             text="Seeded search over generated failing property programs x flags x clock policies: the deadline/shrink time limit strikes at arbitrary invocations of a real, unmodified rapid.Check running in a synctest bubble; every finished history is judged (final case fails with the named failure, logged draws = received draws, never flaky, no falsification without a signal, fail file replays the presented words). Programs scribble over every mutable value they drew; failure sites differ as leaf functions, as call lines 14 frames away from the panic, or as methods of a type named like the runtime package. Exploration is the right level: the quantifier (programs x seeds x instants of the clock) is unbounded."),
  "C05": dict(engine="E1", cat="exploration", ref="§3 C05", technique="deterministic simulation: frozen-clock run vs clock-cut runs of the same tape; monitor on every accepted minimization step",
              text="Every accepted minimization step is observed through the accessor: same site as the original failure, strictly decreasing in shortlex order (the termination argument, monitored), result never larger than the original; the same tape re-run with the clock cut at a uniformly chosen point must produce an exact prefix of the frozen run's accepted sequence and present its last element."),
  "C07": dict(engine="E1", cat="exploration", ref="§3 C07", technique="deterministic simulation: two-run / three-run histories under identical simulated time; history-hash equality; printed-seed replay",
              text="The same (program, -rapid.seed, simulated time) is executed twice in fresh bubbles and directories and the complete histories must be identical; the seed parsed from the failure message must make the first test case draw the originally failing values and fail after 0 tests - for every seed offered in any report, also after a fail-file replay, for a MakeCheck closure created before the flags were set, with and without -short; a third execution guards against agreement by accident; the index of the first falsified case is spread over 0..checks-1 (histogram in evidence)."),
  "C09": dict(engine="E1", cat="exploration", ref="§3 C09", technique="deterministic simulation: invocation-count oracle under frozen / dripping / deadline-approaching fake clock with stale fail files on disk",
-             text="Counts valid / skipped / failing random test cases of real Check runs from the recorded history: exactly N valid cases then OK and nothing more; 'only generated' + FailNow when 10*N skipped; never a vacuous pass when the clock is driven to the deadline; no fresh case after the first falsified one; fail files replayed first."),
+             text="Counts valid / skipped / failing random test cases of real Check runs from the recorded history: exactly N valid cases then OK and nothing more; 'only generated' + FailNow when 10*N skipped; never a vacuous pass when the clock is driven to the deadline; no fresh case after the first falsified one; fail files replayed first (also slowly: clock jumps of hours inside the replays must not cause an early exit); a leg through MakeCheck on a real *testing.T without a deadline, incl. long runs of big test cases (about 10M words drawn within one Check)."),
  "C10": dict(engine="E1", cat="exploration", ref="§3 C10", technique="deterministic simulation: bracket automaton over the event history of every invocation kind + bubble quiescence for Done()-waiters",
              text="A bracket automaton is fed the global event sequence of failing, minimizing, persisting Checks (hundreds of invocations of all ten kinds, cut by the clock; plus Generator.Example on retried Custom generators and MakeFuzz on arbitrary bytes): context live and unique during the call, cancelled before any cleanup, cleanups exactly once and LIFO incl. ones registered during cleanup and after panics, everything closed before the next invocation; goroutines parked on Done() must all be released (synctest quiescence)."),
  "C02": dict(engine="E1", cat="exploration", ref="§3 C02", technique="deterministic simulation: enumerated kind x context x position matrix of failure signals inside simulated Check histories; conservation oracle",
-             text="The finite matrix (16 failure kinds incl. empty-message Error()/Errorf(\"\") x 8 callback contexts in which a *T is available x 9 positions of the falsifying case within the run incl. 'signal, then a Skip raised from a cleanup' and 'only in the first replay of an existing fail file' = 890 cells) is enumerated cell by cell over run indices, each followed by 0-3 later statements (Custom draws, filters that give up, state machines, cleanups) that must not un-signal it; every fourth run is a generated program under the same oracle; around each cell seed, checks, steps and clock are sampled; conservation oracle: a recorded failure signal on any *T rapid handed out implies the TB is failed (and FailNow) when Check returns; skips and passes alone never fail it."),
+             text="The finite matrix (16 failure kinds incl. empty-message Error()/Errorf(\"\") x 8 callback contexts in which a *T is available x 9 positions of the falsifying case within the run incl. 'signal, then a Skip raised from a cleanup' and 'only in the first replay of an existing fail file' = 890 cells) is enumerated cell by cell over run indices, each followed by 0-3 later statements (Custom draws, filters that give up, state machines, cleanups) that must not un-signal it; every fourth run is a generated program under the same oracle; around each cell seed, checks, steps and clock are sampled; conservation oracle: a recorded failure signal on any *T rapid handed out implies the TB is failed (and FailNow) when Check returns; skips and passes alone never fail it. 12% of the 'first-case'/'every-case' cells are run as fuzz targets instead (MakeFuzz on a real sub-test with arbitrary bytes): a signal in the executed case must fail the enclosing test."),
  "C04": dict(engine="E1", cat="exploration", ref="§3 C04", technique="deterministic simulation: multi-phase process histories (warm-ups, same seed twice, record -> prune -> replay, fail -> restart -> replay, raw recording via MakeFuzz, cold OS process vs warm) with draw-log equivalence oracles",
              text="Replay-equivalence over histories: same seed twice in different bubbles; reproduction = failing case; any two invocations started from identical words behave identically; the presented case (replay of the pruned recording) draws what the last recording run drew minus rejected attempts; restart over the same directory replays the same values; the unpruned recording through MakeFuzz reproduces the recorded run; every run starts from recreated process-wide caches, so its warm history is exactly the warm-ups on its tape, and the same tape in a fresh OS process (cold) must give the same history (look-alike regexps probe cache keying); a sampled run that behaves differently in the warm worker than in two agreeing fresh processes is reported as process-history dependence with an index-range replay."),
  "C06": dict(engine="E1", cat="exploration", ref="§3 C06", technique="deterministic simulation: two-run history fail -> restart -> rerun on a real scratch FS with hostile names/outputs, clock jumps within and between runs",
@@ -34,7 +34,7 @@ checks = {
              note="Trusted base: strace 6.1 syscall injection (validated per run: the injected run's trace must equal the baseline's prefix and end at the chosen call, else it is discarded); kernel page cache is the truth (process death, not power loss); torn single writes are dominated by the crash point before the write.",
              text="For every sampled workload (name, 0-200 output lines, bitstream size, failure kind; pre-state: empty / directory exists / leftovers of a killed earlier save; TMPDIR on the same or on another file system; one save or two saves for the same test within one process and second) EVERY file-system-affecting system call of the save is a crash point: a single-threaded child is killed on entry to that call; J1: every *.fail file left behind is byte-identical (up to timestamps) to the uninterrupted save; J2: a fresh process either behaves as if no fail file existed or replays the complete case; partial data only under temporary names."),
  "C17": dict(engine="E1", cat="fault_enumeration", ref="§3 C17", technique="deterministic simulation: fault injection into durable state (seeded + exhaustive truncation/bit-flip corruption of real fail files) with a differential oracle against a clean directory",
-             text="Faults are injected into the only durable state (the fail-file directory) between runs: 21 fault kinds incl. truncation at any offset and single-bit flips (exhaustively enumerated for a fixed reference file in the thorough tier), 1-4 files at once, passing and failing targets; differential oracle against the same run in an empty directory: no crash, same verdict/message/random cases, one log line per unusable file."),
+             text="Faults are injected into the only durable state (the fail-file directory) between runs: 21 fault kinds incl. truncation at any offset and single-bit flips (exhaustively enumerated for a fixed reference file in the thorough tier), 1-4 files at once (or 30-100 unreadable entries with the process 10 descriptors away from RLIMIT_NOFILE and a property that opens a file), passing and failing targets; differential oracle against the same run in an empty directory: no crash, same verdict/message/random cases, one log line per unusable file."),
  "C11": dict(engine="E1", cat="exploration", ref="§3 C11", technique="deterministic simulation: blame oracle over multi-case histories on the reused T (selector programs), reach probes for the ordered pairs of consecutive behaviours",
              text="Selector programs make consecutive test cases take every reachable order of {pass, skip, errorf, errorf-skip, errorf-then-generator-gives-up, cleanup errorf, cleanup panic, fatal}; the case Check goes on to reproduce must be one that signalled, no signalling case is passed over or lost, never flaky, draw numbering restarts, brackets closed across cases."),
 }
